@@ -392,3 +392,70 @@ class LocalErrorEstimate(Contract):
 
 CONTRACTS += [LocalErrorEstimate(k, n, o, t) for k in ("volume", "extend", "extend-parent") for n in (1, 2, 3) for o, t in ((1, "1"), (2, "2"), (Inf(1), "inf"))]
 ASSUMPTIONS += ["local error estimators: vectors of length 1..3, norms 1/2/inf, no volume weights (the default of both strategies)"]
+
+
+# --------------------------------------------------------------------------- the reported point count is the size of the integrand's evaluation cache
+# C13: "the reported point count equals the number of distinct integrand evaluations performed".  The chain get_total_num_points -> Integration.get_distinct_points ->
+# Function.get_f_dict_size is verified: the number the driver records is the cardinality of the key set of the integrand's cache; that this key set is exactly the set of
+# distinct points evaluated since the reset is C12's contract of Function.__call__.
+from pyvc import prelude as P13  # noqa: E402
+
+FN_FILE = "sparseSpACE/Function.py"
+U13 = P13.U
+
+
+def _fobj(S):
+    return Obj("Function", dict(f_dict=S.dict("f_dict", U13, U13)))
+
+
+class FDictSize(Contract):
+    model_to_input = staticmethod(lambda model: {"kind": "C13.point_count"})
+    file, qualname = FN_FILE, "Function.get_f_dict_size"
+
+    def inputs(self, S):
+        return {"self": _fobj(S)}
+
+    def result(self, S, env):
+        return P13.card_of(env["self"].fields["f_dict"].dom)
+
+    def post(self, S, old, env, result):
+        from pyvc import values as Vv
+        return [Cl("counter-is-the-number-of-cached-points", Vv.to_z3(result) == P13.card_of(old["self"].fields["f_dict"].dom), prop=True),
+                Cl("cache-untouched", z3.And(env["self"].fields["f_dict"].dom == old["self"].fields["f_dict"].dom, env["self"].fields["f_dict"].val == old["self"].fields["f_dict"].val))]
+
+
+class DistinctPoints(Contract):
+    model_to_input = staticmethod(lambda model: {"kind": "C13.point_count"})
+    file, qualname = GO_FILE, "Integration.get_distinct_points"
+
+    def inputs(self, S):
+        return {"self": Obj("Integration", dict(f=_fobj(S))), "combi_scheme": None}
+
+    def result(self, S, env):
+        return P13.card_of(env["self"].fields["f"].fields["f_dict"].dom)
+
+    def post(self, S, old, env, result):
+        from pyvc import values as Vv
+        return [Cl("distinct-points-are-the-cached-points-of-the-integrand", Vv.to_z3(result) == P13.card_of(old["self"].fields["f"].fields["f_dict"].dom), prop=True)]
+
+
+class TotalNumPointsDistinct(Contract):
+    model_to_input = staticmethod(lambda model: {"kind": "C13.point_count"})
+    file, qualname = "sparseSpACE/StandardCombi.py", "StandardCombi.get_total_num_points"
+    label = "StandardCombi.get_total_num_points[distinct function evaluations]"
+
+    def applies(self, receiver, args):
+        return "operation" in receiver.fields and "ghost_E" not in receiver.fields
+
+    def inputs(self, S):
+        return {"self": Obj("StandardCombi", dict(operation=Obj("Integration", dict(f=_fobj(S))), scheme=None)), "doNaive": False, "distinct_function_evals": True}
+
+    def post(self, S, old, env, result):
+        from pyvc import values as Vv
+        return [Cl("reported-point-count-is-the-number-of-cached-integrand-evaluations", Vv.to_z3(result) == P13.card_of(old["self"].fields["operation"].fields["f"].fields["f_dict"].dom), prop=True)]
+
+
+for _c in CONTRACTS:
+    if isinstance(_c, GetTotalNumPoints):
+        _c.applies = lambda receiver, args: "ghost_E" in receiver.fields
+CONTRACTS += [FDictSize(), DistinctPoints(), TotalNumPointsDistinct()]
